@@ -5,7 +5,7 @@
 using namespace vf;
 static std::vector<std::string> g_items; static FaceCache *g_fc;
 static void setup(Runner &r, const Tier &t) {
-    g_items = corpus_items("awami_tests.txt", t.thorough ? 0 : 400, true); r.ncases = g_items.size() * 4; r.case_alarm_s = 120;
+    g_items = corpus_items("awami_tests.txt", 0, true); r.ncases = g_items.size() * 4; r.case_alarm_s = 120;
     r.shard_init = [](int) { g_fc = new FaceCache; };
     r.describe = [](uint64_t i) { JObj o; o.kv("fonts", "Awami_test.ttf vs Awami_compressed_test.ttf").kv("text_utf8_hex", hex(g_items[i / 4].data(), g_items[i / 4].size())).kv("dir", (i % 2) ? 3 : 1).kv("options", (i / 2 % 2) ? 7 : 0); return o; };
     r.body = [](uint64_t i, ShardCtl &c) { const std::string &tx = g_items[i / 4]; int dir = (i % 2) ? 3 : 1; unsigned opts = (i / 2 % 2) ? 7 : 0;
